@@ -439,4 +439,199 @@ theorem inv_run (cfg : Cfg) (ops : List Op) : ∀ (s s' : St), Inv cfg s → run
       simp only [hq, Option.bind_some] at hs
       exact ih s1 s' (inv_step cfg s s1 op st hI hq) hs
 
+theorem lookup_mem {κ : Type} [DecidableEq κ] (k : κ) (v : Nat) (l : List (κ × Nat)) (h : lookup k l = some v) : (k, v) ∈ l := by
+  induction l with
+  | nil => cases h
+  | cons p r ih =>
+    obtain ⟨a, b⟩ := p
+    simp only [lookup] at h
+    split at h
+    · rename_i e; cases h; subst e; exact List.mem_cons_self
+    · exact List.mem_cons_of_mem _ (ih h)
+
+/-- the retention theorem on states satisfying the invariant -/
+theorem needed_reachable (cfg : Cfg) (s : St) (hr : cfg.retainAll = true) (hI : Inv cfg s) (v : Nat) :
+    ∀ n ∈ needed s v, Reach s (.var v) n := by
+  intro n hn
+  unfold needed at hn
+  cases hw : s.vars v with
+  | val x => simp [hw] at hn
+  | fake f c =>
+    simp only [hw] at hn
+    obtain ⟨hc, hlk⟩ := hI.a v f c hw
+    obtain ⟨hf, hdat⟩ := hI.b c _ f hlk
+    have r1 : Reach s (.var v) (.ctx c) := Reach.tail (Reach.refl _) (by simp [succs, hw])
+    rcases List.mem_cons.mp hn with h1 | h2
+    · subst h1
+      refine Reach.tail r1 ?_
+      simp only [succs, List.mem_append, List.mem_map]
+      exact Or.inl (Or.inl (Or.inl ⟨(s.vtyp v, f), lookup_mem _ _ _ hlk, rfl⟩))
+    · obtain ⟨i, _, hi⟩ := List.mem_filterMap.mp h2
+      cases hfn : (s.fakes f).fn i with
+      | notImpl => simp [hfn] at hi
+      | stub k =>
+        simp only [hfn, Option.some.injEq] at hi
+        subst hi
+        have hk := hI.d hr f i k hf hfn
+        rw [hdat] at hk
+        refine Reach.tail r1 ?_
+        simp only [succs, List.mem_append, List.mem_map]
+        exact Or.inl (Or.inr ⟨k, hk, rfl⟩)
+
+
+/-- what `proxy.Interface` writes (context not canceled): the variable gets fake iface `f` of context `c`, whose table is
+    `g` with slot `idx` replaced, where `g` is the all-`notImplement` table of a fresh itab (first mock in the context)
+    or the previous table of the same cached fake iface -/
+theorem proxyInterface_out (cfg : Cfg) (s s' : St) (v t c : Nat) (m : String) (k : Nat) (cb : Cb)
+    (hcn : (s.ctxs c).canceled = false) (hs : proxyInterface cfg s v t c m k cb = some s') :
+    ∃ f g, s'.vars = upd s.vars v (.fake f c)
+      ∧ s'.fakes = upd s.fakes f { data := c, fn := upd g (methodIndexOf (s.types t) m) (.stub k) }
+      ∧ ((f = s.nfake ∧ g = (fun _ => Slot.notImpl) ∧ lookup t (s.ctxs c).cache = none)
+          ∨ (lookup t (s.ctxs c).cache = some f ∧ g = (s.fakes f).fn))
+      ∧ s'.cbs = upd s.cbs k cb ∧ s'.types = s.types ∧ s'.vtyp = s.vtyp ∧ s'.mms = s.mms := by
+  simp only [proxyInterface] at hs
+  split at hs
+  · cases hs
+  · split at hs
+    · rename_i f hlk hcan
+      cases hs
+      exact ⟨f, (s.fakes f).fn, rfl, rfl, Or.inr ⟨hlk, rfl⟩, rfl, rfl, rfl, rfl⟩
+    · rename_i hnot
+      cases hs
+      have hnone : lookup t (s.ctxs c).cache = none := by
+        cases hq : lookup t (s.ctxs c).cache with
+        | none => rfl
+        | some f => exact absurd hcn (hnot f hq)
+      exact ⟨s.nfake, _, rfl, rfl, Or.inl ⟨rfl, rfl, hnone⟩, rfl, rfl, rfl, rfl⟩
+
+/-- independence at one mock step: mocking variable `v` leaves every other variable's two words and the function table
+    they dispatch through untouched -/
+theorem mock_other_vars (cfg : Cfg) (hk : cfg.keyByVar = true) (s s' : St) (b v : Nat) (m : String) (kind : Kind) (st : Status)
+    (hI : Inv cfg s) (hs : mockStep cfg s b v m kind = some (s', st)) (w : Nat) (hw : w ≠ v) :
+    s'.vars w = s.vars w ∧ ∀ f c, s.vars w = .fake f c → s'.fakes f = s.fakes f := by
+  cases st with
+  | panic c =>
+    obtain ⟨_, h1, h2⟩ := mockStep_panic cfg s s' b v m kind c hI hs
+    exact ⟨by rw [h1], fun f c _ => by rw [h2]⟩
+  | ok =>
+    obtain ⟨s2, s3, j, i, hI2, hj, hcn, hvar, hmem, e1, e2, e3, e4, e5, e6, hp, he⟩ := mockStep_ok cfg s s' b v m kind hI hs
+    obtain ⟨f, g, o1, o2, o3, o4, o5, o6, o7⟩ := proxyInterface_out cfg s2 s3 _ _ _ m _ _ hcn hp
+    have hv := hvar hk
+    subst he
+    simp only
+    rw [o1, o2, hv, e1, e2]
+    refine ⟨upd_other _ _ _ _ hw, ?_⟩
+    intro fw cw hfw
+    have hfw2 : s2.vars w = .fake fw cw := by rw [e1]; exact hfw
+    obtain ⟨hcw, hlw⟩ := hI2.a w fw cw hfw2
+    obtain ⟨hfwn, hdw⟩ := hI2.b cw _ fw hlw
+    have hne : fw ≠ f := by
+      intro e
+      subst e
+      rcases o3 with ⟨h1, _, _⟩ | ⟨h1, _⟩
+      · omega
+      · obtain ⟨_, hd2⟩ := hI2.b _ _ fw h1
+        have hc : cw = (s2.cms j).ctx := by rw [← hdw, hd2]
+        obtain ⟨x, hx⟩ := hI2.l w fw cw hfw2
+        rw [hc] at hx
+        have := hI2.m j hj w x hx
+        exact hw (by rw [this, hv])
+    exact upd_other _ _ _ _ hne
+
+
+theorem methodIndexOf_eq_idxOf (ms : List String) (m : String) (h : m ∈ ms) : methodIndexOf ms m = ms.idxOf m := by
+  simp [methodIndexOf, methodIndexFrom_idxOf ms m 0 h]
+
+/-- the structural effect of a successful mock of method `m` of variable `v` (repaired key): the variable holds a fake
+    iface whose table is `g` with the slot *at the position of `m` in the method set* pointing at the new callback -/
+theorem mock_dispatch (cfg : Cfg) (hk : cfg.keyByVar = true) (s s' : St) (b v : Nat) (m : String) (kind : Kind)
+    (hI : Inv cfg s) (hs : mockStep cfg s b v m kind = some (s', .ok)) :
+    ∃ f c g i, s'.vars v = .fake f c ∧ s'.types = s.types ∧ s'.vtyp = s.vtyp ∧ m ∈ s.types (s.vtyp v)
+      ∧ (s'.fakes f).fn = upd g ((s.types (s.vtyp v)).idxOf m) (.stub s.ncb)
+      ∧ ((f = s.nfake ∧ g = fun _ => Slot.notImpl) ∨ (f < s.nfake ∧ g = (s.fakes f).fn))
+      ∧ s'.cbs s.ncb = cbOf kind i ∧ (s'.mms i).when_ = whenOf kind s.ncb (s'.mms i).when_
+      ∧ (kind ≠ .ap → (s'.mms i).when_ = whenOf kind s.ncb none) := by
+  obtain ⟨s2, s3, j, i, hI2, hj, hcn, hvar, hmem, e1, e2, e3, e4, e5, e6, hp, he⟩ := mockStep_ok cfg s s' b v m kind hI hs
+  obtain ⟨f, g, o1, o2, o3, o4, o5, o6, o7⟩ := proxyInterface_out cfg s2 s3 _ _ _ m _ _ hcn hp
+  have hv := hvar hk
+  have htyp : (s2.cms j).typ = s.vtyp v := by rw [(hI2.e j hj).2, hv, e5]
+  rw [htyp, e4] at hmem
+  subst he
+  refine ⟨f, (s2.cms j).ctx, g, i, ?_, ?_, ?_, hmem, ?_, ?_, ?_, ?_, ?_⟩
+  · simp only; rw [o1, hv]; exact upd_same _ _ _
+  · simp only; rw [o5, e4]
+  · simp only; rw [o6, e5]
+  · simp only; rw [o2, upd_same, htyp, e4, methodIndexOf_eq_idxOf _ _ hmem]
+  · rcases o3 with ⟨h1, h2, _⟩ | ⟨h1, h2⟩
+    · exact Or.inl ⟨by rw [h1, e3], h2⟩
+    · exact Or.inr ⟨by rw [← e3]; exact (hI2.b _ _ _ h1).1, by rw [h2, e2]⟩
+  · simp only; rw [o4]; exact upd_same _ _ _
+  · simp only [upd_same]
+    cases kind <;> rfl
+  · intro hne
+    simp only [upd_same]
+    cases kind with
+    | ap => exact absurd rfl hne
+    | rt => rfl
+    | wn a => rfl
+
+
+theorem upd_upd {α : Type} (f : Nat → α) (i : Nat) (x : α) : upd (upd f i x) i x = upd f i x := by
+  funext j; by_cases h : j = i <;> simp [upd, h]
+
+theorem cancelMM_single (s s' : St) (i c v : Nat) (w : Words) (hc : (s.mms i).ctx = c)
+    (hb : (s.ctxs c).backup = some (v, w)) (hs : cancelMM s i = some s') :
+    (s'.ctxs c).backup = some (v, w) ∧ (∀ i', (s'.mms i').ctx = (s.mms i').ctx ∧ (s'.mms i').hasGuard = (s.mms i').hasGuard)
+    ∧ s'.vars = (if (s.mms i).hasGuard then upd s.vars v w else s.vars)
+    ∧ ((s.mms i).hasGuard = true → (s'.ctxs c).canceled = true) ∧ ((s.ctxs c).canceled = true → (s'.ctxs c).canceled = true) := by
+  simp only [cancelMM, cancelCtx, hc, hb] at hs
+  by_cases hg : (s.mms i).hasGuard = true
+  · simp only [hg, if_true, Option.map_some, Option.some.injEq] at hs
+    subst hs
+    refine ⟨by simp, ?_, by simp [hg], by simp, by simp⟩
+    intro i'
+    by_cases e : i' = i
+    · subst e; simp [hc, hg]
+    · simp [upd_other _ _ _ _ e]
+  · simp only [hg, Bool.false_eq_true, if_false, Option.map_some, Option.some.injEq] at hs
+    subst hs
+    refine ⟨hb, ?_, by simp [hg], by intro h; exact absurd h hg, fun h => h⟩
+    intro i'
+    by_cases e : i' = i
+    · subst e; simp [hc]; simpa using hg
+    · simp [upd_other _ _ _ _ e]
+
+theorem cancelMMs_single (c v : Nat) (w : Words) (l : List Nat) : ∀ (s s' : St), (∀ i ∈ l, (s.mms i).ctx = c) →
+    (s.ctxs c).backup = some (v, w) → cancelMMs s l = some s' →
+    s'.vars = (if l.any (fun i => (s.mms i).hasGuard) then upd s.vars v w else s.vars)
+    ∧ (l.any (fun i => (s.mms i).hasGuard) = true → (s'.ctxs c).canceled = true)
+    ∧ ((s.ctxs c).canceled = true → (s'.ctxs c).canceled = true) := by
+  induction l with
+  | nil => intro s s' _ _ hs; simp only [cancelMMs, Option.some.injEq] at hs; subst hs; simp
+  | cons i r ih =>
+    intro s s' hc hb hs
+    simp only [cancelMMs] at hs
+    cases hq : cancelMM s i with
+    | none => simp [hq] at hs
+    | some s1 =>
+      simp only [hq, Option.bind_some] at hs
+      obtain ⟨h1, h2, h3, h4, h5⟩ := cancelMM_single s s1 i c v w (hc i List.mem_cons_self) hb hq
+      have hc1 : ∀ i' ∈ r, (s1.mms i').ctx = c := fun i' hi' => by rw [(h2 i').1]; exact hc i' (List.mem_cons_of_mem _ hi')
+      obtain ⟨g1, g2, g3⟩ := ih s1 s' hc1 h1 hs
+      have hany : r.any (fun i => (s1.mms i).hasGuard) = r.any (fun i => (s.mms i).hasGuard) := by
+        congr 1; funext i'; exact (h2 i').2
+      rw [hany] at g1 g2
+      simp only [List.any_cons]
+      by_cases hg : (s.mms i).hasGuard = true
+      · simp only [hg, if_true, Bool.true_or] at h3 ⊢
+        refine ⟨?_, fun _ => g3 (h4 hg), fun hx => g3 (h5 hx)⟩
+        rw [g1, h3]
+        split
+        · exact upd_upd _ _ _
+        · rfl
+      · have hg' : (s.mms i).hasGuard = false := by simpa using hg
+        simp only [hg', Bool.false_eq_true, if_false, Bool.false_or] at h3 ⊢
+        rw [h3] at g1
+        exact ⟨g1, g2, fun hx => g3 (h5 hx)⟩
+
 end C07L
